@@ -189,8 +189,13 @@ let judge _id (c : cursor) (r : cursor) : bool * string =
       let rs_m = List.map (fun (pa, m, _) -> ((pa.keys, pa.vals), m)) rules in
       let rs_b = List.map (fun (pa, _, b) -> ((pa.keys, pa.vals), b)) rules in
       let pas = List.map (fun (pa, _, _) -> (pa.keys, pa.vals)) rules in
+      (* regimes: a single key set (one factor: every elimination step has exactly one adjacent
+         factor) must be optimal; several key sets in one component are the regime of the known
+         pruning defect of endFactorCrossSum (bounds ignore the agent's own remaining factors) *)
+      let n_keysets = List.length (List.sort_uniq compare (List.map (fun (k, _) -> ints k) pas)) in
       let clause = if not (complete a_sp pas) then "ucve_optimal_missing_entries"
-        else if n_rule_components a_sp pas >= 2 then "ucve_optimal_multi_component" else "ucve_optimal" in
+        else if n_rule_components a_sp pas >= 2 then "ucve_optimal_multi_component"
+        else if n_keysets >= 2 then "ucve_optimal_connected" else "ucve_optimal" in
       let i_act = next_nats r in let i_m = next_q r in let i_b = next_q r in
       if not (inrb a_sp i_act) then oracle_fail "ucve_optimal" site ("action out of range " ^ str_act i_act);
       let tm = payoff rs_m i_act and tb = payoff rs_b i_act in
@@ -205,7 +210,7 @@ let judge _id (c : cursor) (r : cursor) : bool * string =
               (Printf.sprintf "set %d: returned %s has ucb %.12g but %s has ucb %.12g (%s)" s (str_act i_act) (fl tm tb) (str_act a) (fl m b) (shape a_sp rs_m)))
         (all_actions a_sp);
       if List.length rules >= 2 then nt := true;
-      tag := "ucve-" ^ (if not (complete a_sp pas) then "incomplete" else if n_rule_components a_sp pas >= 2 then "multi" else "single")
+      tag := "ucve-" ^ (if not (complete a_sp pas) then "incomplete" else if n_rule_components a_sp pas >= 2 then "multi" else if n_keysets >= 2 then "connected-multifactor" else "single")
     done;
     (!nt, !tag)
   | k -> failwith ("unknown case kind " ^ k)
